@@ -136,6 +136,41 @@ class Chooser:
 _state = {"chooser": None, "log": None}
 
 
+class _Star:
+    def __init__(self, func):
+        self.func = func
+
+    def __call__(self, args):
+        return self.func(*args)
+
+
+class _Apply:
+    def __init__(self, func, kwds):
+        self.func, self.kwds = func, kwds
+
+    def __call__(self, args):
+        return self.func(*args, **self.kwds)
+
+
+class _Result:
+    def __init__(self, value, exc):
+        self._value, self._exc = value, exc
+
+    def get(self, timeout=None):
+        if self._exc is not None:
+            raise self._exc
+        return self._value
+
+    def wait(self, timeout=None):
+        pass
+
+    def ready(self):
+        return True
+
+    def successful(self):
+        return self._exc is None
+
+
 class VPool:
     def __init__(self, processes=None, initializer=None, initargs=(), maxtasksperchild=None, **kwargs):
         self.n = processes or 1
@@ -212,6 +247,36 @@ class VPool:
                 chunksize += 1
         return list(self.imap(func, items, chunksize))
 
+    # the rest of the multiprocessing.Pool calling interface, in terms of the calls above (a library that switches to
+    # one of them keeps the seam)
+    def starmap(self, func, iterable, chunksize=None):
+        return self.map(_Star(func), iterable, chunksize)
+
+    def apply(self, func, args=(), kwds=None):
+        return self.map(_Apply(func, kwds or {}), [tuple(args)], 1)[0]
+
+    def apply_async(self, func, args=(), kwds=None, callback=None, error_callback=None):
+        try:
+            value = self.apply(func, args, kwds)
+        except Exception as exc:  # delivered when the caller asks for the result, as the real pool does
+            if error_callback:
+                error_callback(exc)
+            return _Result(None, exc)
+        if callback:
+            callback(value)
+        return _Result(value, None)
+
+    def map_async(self, func, iterable, chunksize=None, callback=None, error_callback=None):
+        try:
+            value = self.map(func, iterable, chunksize)
+        except Exception as exc:
+            if error_callback:
+                error_callback(exc)
+            return _Result(None, exc)
+        if callback:
+            callback(value)
+        return _Result(value, None)
+
     # -- life cycle ------------------------------------------------------------------
     def close(self):
         if not self.closed:
@@ -239,25 +304,51 @@ class VPool:
             pass
 
 
-_originals = {}
+_originals = []   # (module, attribute name, original object)
+
+
+def rebind_pool_class(replacement):
+    """Rebind every name inside the cobra package that refers to cobra's ProcessPool class to `replacement`.
+
+    The seam is the *class*, wherever the library imports it (`from ..util import ProcessPool` binds the name in
+    the importing module), so that moving the import or the call site does not disable the seam.  Returns the
+    number of names rebound; the originals are restored by `restore_pool_class`."""
+    import sys
+
+    import cobra.flux_analysis.deletion  # noqa: F401  (make sure the users of the pool are imported)
+    import cobra.flux_analysis.variability  # noqa: F401
+    import cobra.sampling.optgp  # noqa: F401
+    import cobra.util.process_pool as PP
+
+    target = PP.ProcessPool
+    n = 0
+    for name, mod in list(sys.modules.items()):
+        if mod is None or not (name == "cobra" or name.startswith("cobra.")):
+            continue
+        for attr, val in list(vars(mod).items()):
+            if val is target:
+                _originals.append((mod, attr, val))
+                setattr(mod, attr, replacement)
+                n += 1
+    return n
+
+
+def restore_pool_class():
+    while _originals:
+        mod, attr, val = _originals.pop()
+        setattr(mod, attr, val)
 
 
 def install(chooser, log=None):
-    import cobra.flux_analysis.deletion as D
-    import cobra.flux_analysis.variability as V
-    import cobra.sampling.optgp as O
-
     _state["chooser"] = chooser
     _state["log"] = log
-    for mod in (V, D, O):
-        if mod not in _originals:
-            _originals[mod] = mod.ProcessPool
-        mod.ProcessPool = VPool
+    if not _originals:
+        if rebind_pool_class(VPool) == 0:
+            raise RuntimeError("vpool seam: no reference to cobra.util.process_pool.ProcessPool found in the cobra package")
 
 
 def uninstall():
-    for mod, orig in _originals.items():
-        mod.ProcessPool = orig
+    restore_pool_class()
     _state["chooser"] = None
     _state["log"] = None
 
